@@ -9,8 +9,11 @@ with /repo's compiler and the accept/reject outcome compared.
 Binding, code -> spec: accepted sites are compiled once and run on anchor and seeded random
 values; every call is an event validated by spec/NumOps_Trace.tla (ops co_int / co_float:
 the converted value equals the original when representable - a nat >= 2^63 used as int is
-outside the statement - and is the nearest-even double for float targets; method and `+=`
-sites are validated as the binary operation at the receiver's type).
+outside the statement - and is the nearest-even double for float targets, compared exactly;
+method and `+=` sites are validated as the binary operation at the receiver's type).
+nat/int -> float sites additionally get the rounding-boundary family of spec/RoundFamily.tla
+(2^e + k*ulp + d around every binade from 2^52 up: exact values, exact ties, one off a tie; generated
+and classified on limbs by TLC); the check refuses to pass if no tie / near-tie value was converted.
 """
 import json
 
@@ -57,17 +60,64 @@ def site_form(s: dict, idx: int) -> dict:
     return f
 
 
+# rounding-boundary family for nat/int -> float, filled from spec/RoundFamily.tla by round_family()
+FAMILY = {"nat": [], "int": []}
+FAMILY_CLASS = {}          # (ty, value) -> "exact" | "tie" | "neartie" | "other"
+FULL_FAMILY_POS = ("assign", "ret")    # quick: every member here, every 4th (rotating) at the other positions
+EXTRA = {"nat": [nv.MAXU, nv.MAXI, (1 << 63) + 1025, (1 << 54) + 3, (1 << 60) + 129],
+         "int": [nv.MAXI, nv.MINI, nv.MINI + 1, -(1 << 54) - 3, (1 << 60) + 129]}
+
+
+def round_family(ctx):
+    """values around the rounding boundaries, generated on limbs and classified by the spec"""
+    r = ctx.tlc("RoundFamily", env={"JAVA_TOOL_OPTIONS": "-Xmx8g -XX:+UseParallelGC -Xss64m"})
+    if not r.ok:
+        raise lib.Machinery("RoundFamily.tla: " + r.error[:1500])
+    fam = {"nat": set(), "int": set()}
+    FAMILY_CLASS.clear()
+    for p in r.printed:
+        if isinstance(p, dict) and "cls" in p:
+            v = nv.unlimbs(p["mag"]) * (-1 if p["neg"] else 1)
+            fam[p["ty"]].add(v)
+            FAMILY_CLASS[(p["ty"], v)] = p["cls"]
+    for ty in fam:
+        FAMILY[ty] = sorted(fam[ty] | set(EXTRA[ty]))
+    classes = {ty: {c: sum(1 for (t, _), k in FAMILY_CLASS.items() if t == ty and k == c) for c in ("exact", "tie", "neartie", "other")}
+               for ty in fam}
+    for ty in fam:
+        if not (classes[ty]["tie"] and classes[ty]["neartie"] and classes[ty]["exact"]):
+            raise lib.Machinery(f"rounding family for {ty} is vacuous: {classes[ty]}")
+    return classes
+
+
+def family_for(f: dict, ty: str, quick: bool) -> list:
+    fam = FAMILY[ty]
+    if not quick or f["site"]["pos"] in FULL_FAMILY_POS:
+        return list(fam)
+    off = sum(map(ord, f["key"])) % 4
+    return sorted(set(fam[off::4]) | set(EXTRA[ty]))
+
+
 def site_operands(f: dict, tier: str, seed: int):
     import random
     rng = random.Random(f"{seed}:C16:{f['key']}")
     quick = tier == "quick"
+    s = f["site"]
+    to_float = s["exp"] == "float" and s["act"] in ("nat", "int")
     if not f["params"]:
         return [(f["lit"], None)]
     if len(f["params"]) == 1:
         ty = f["params"][0][1]
         vs = list(nv.anchors(ty)) + ([] if ty in ("bool",) else [nv.rand_value(ty, rng) for _ in range(6 if quick else 150)])
+        if to_float:
+            vs += family_for(f, ty, quick)
         return [(v, None) for v in vs]
     (_, ta), (_, tb) = f["params"]
+    if to_float and (s["pos"] == "aug" or s["pos"] in ("meth_add", "meth_sub", "meth_eq")):
+        # receiver 0.0: the result shows the coerced operand itself (0.0 + n, 0.0 - n, 0.0 == n)
+        extra = [(0.0, v) for v in family_for(f, tb, quick)]
+    else:
+        extra = []
     A = nf.operand_values(ta, "a", f["op"], tier, rng)
     B = nf.operand_values(tb, "b", f["op"], tier, rng)
     if quick:
@@ -75,7 +125,7 @@ def site_operands(f: dict, tier: str, seed: int):
     pairs = [(a, b) for a in A for b in B]
     pairs += [(nv.rand_value(ta, rng), nv.rand_value(tb, rng) if f["op"] != "**" else (float(rng.randrange(6)) if tb == "float" else rng.randrange(40)))
               for _ in range(4 if quick else 80)]
-    return pairs
+    return pairs + extra
 
 
 def spec_sites(ctx):
@@ -95,6 +145,7 @@ def spec_sites(ctx):
 def run(ctx):
     ctx.level = "model_checking"
     sites, r = spec_sites(ctx)
+    fam_classes = round_family(ctx)
     forms = [site_form(s, i) for i, s in enumerate(sites)]
     results = nt.execute(forms, ctx.tier, ctx.seed, validate=True, operand_fn=site_operands)
     nacc = 0
@@ -126,6 +177,19 @@ def run(ctx):
         i, exp = orc[0]
         raise lib.Machinery(f"spec and CPython disagree on {len(orc)} events, e.g. {forms[meta[i]['form']]['key']} "
                             f"a={meta[i]['a']!r}: spec {nt.show_exp(exp)} vs CPython {meta[i]['py']}")
+    # vacuity guard: exact ties and values one off a tie were really converted and required
+    hit = {}
+    for m in meta:
+        st = forms[m["form"]]["site"]
+        if st["exp"] == "float" and st["act"] in ("nat", "int") and m["py"][0]:
+            v = m["a"] if m["b"] is None else m["b"]
+            c = FAMILY_CLASS.get((st["act"], v))
+            if c:
+                hit[(st["act"], c)] = hit.get((st["act"], c), 0) + 1
+    for ty in ("nat", "int"):
+        for c in ("tie", "neartie"):
+            if not hit.get((ty, c)):
+                raise lib.Machinery(f"no required {ty}->float event on a {c} value: rounding family not exercised")
     groups = {}
     for i, exp in bad:
         m = meta[i]
@@ -145,6 +209,8 @@ def run(ctx):
         "sites": len(sites), "sites_accept_spec": sum(1 for s in sites if s["accept"]), "sites_accept_code": nacc,
         "value_events": len(meta), "required_events": nok, "not_required_events": nskip, "mismatches": len(bad),
         "positions": sorted({s["pos"] for s in sites}),
+        "rounding_family": {"members": {ty: len(FAMILY[ty]) for ty in FAMILY}, "classes_by_spec": fam_classes,
+                            "required_float_events_by_class": {f"{t}:{c}": n for (t, c), n in sorted(hit.items())}},
         "samples": [forms[i]["key"] for i in range(0, len(forms), max(1, len(forms) // 5))][:5],
         "exhaustive": True,
         "exhaustive_note": "all sites of the listed positions over {nat,int,float,bool}^2 (verdicts); values sampled",
@@ -174,6 +240,7 @@ def replay(ctx, data):
 
 def selftest(ctx):
     sites, _ = spec_sites(ctx)
+    round_family(ctx)
     sub = [s for s in sites if s["pos"] in ("assign", "ret")]
     forms = [site_form(s, i) for i, s in enumerate(sub)]
     results = nt.execute(forms, "quick", ctx.seed, validate=False, operand_fn=site_operands)
@@ -194,9 +261,15 @@ def selftest(ctx):
     trace["events"][i]["r"][0] ^= 1
     j = next(j for j, m in enumerate(meta) if m["py"][0] and forms[m["form"]]["key"] == "ret:nat->int")
     trace["events"][j]["r"][3] ^= 0x8000
+    # 3. a tie rounded the wrong way (one ulp low: what double rounding produces) must be rejected
+    import math
+    t = next(j for j, m in enumerate(meta) if m["py"][0] and forms[m["form"]]["key"] == "assign:nat->float"
+             and FAMILY_CLASS.get(("nat", m["a"])) in ("tie", "neartie") and float(m["a"]) > m["a"])
+    low = math.nextafter(meta[t]["r"], 0.0)
+    trace["events"][t]["r"] = nt.flat(nv.enc_float(low))
     bad, orc, _, _ = nt.validate(ctx, trace, "self1.json")
-    if {b for b, _ in bad} != {i, j} or orc:
-        raise lib.Machinery(f"selftest: corrupted coerced values not (exactly) flagged: {[b for b, _ in bad]} vs {[i, j]}")
+    if {b for b, _ in bad} != {i, j, t} or orc:
+        raise lib.Machinery(f"selftest: corrupted coerced values not (exactly) flagged: {[b for b, _ in bad]} vs {[i, j, t]}")
 
 
 if __name__ == "__main__":
